@@ -268,8 +268,10 @@ def sibling_dupes(d):
     return dup
 
 
-def partition_failures(s):
-    """every triangle in exactly one partition; vertexMap = the vertices its triangles use; mapped triangles agree"""
+def partition_failures(s, bone_lists=True):
+    """every triangle in exactly one partition; vertexMap = the vertices its triangles use; mapped triangles agree;
+    bone_lists: also demand that a partition's bone list covers the bones of its vertices (not demanded of a converted
+    model whose SOURCE partitions already lacked them: generated sources with boneless partitions)"""
     if "parts" not in s or not s["skinned"]:
         return []
     bad = []
@@ -295,7 +297,7 @@ def partition_failures(s):
         got += true
         # a partition names every bone that a vertex of its triangles is weighted to (the game looks the bones of a
         # partition's vertices up in the partition's own bone list)
-        if p.get("bones") and s.get("weights"):
+        if bone_lists and p.get("bones") and s.get("weights"):
             pb = set(p["bones"])
             for v in used:
                 if v < len(s["weights"]):
@@ -353,8 +355,11 @@ def evaluate_pipeline(case, d):
     if dup:
         fails.append(("conversion: sibling shapes share a name afterwards", {"names": dup, "before": [s["name"] for s in orig["shapes"]],
                                                                             "after": [s["name"] for s in st["conv0"]["d"]["shapes"]]}))
+    # shapes whose source partitions do not name the bones of their vertices (or name none at all)
+    src_boneless = {s["name"] for s in orig["shapes"] if s.get("skinned") and s.get("parts")
+                    and (any(not p.get("bones") for p in s["parts"]) or any("bone list lacks" in w for w in partition_failures(s)))}
     for s in st["conv0"]["d"]["shapes"]:
-        for w in partition_failures(s):
+        for w in partition_failures(s, s["name"] not in src_boneless):
             fails.append(("conversion: partition invariant: " + w, {"shape": s["name"]}))
     if "reload0" in st:
         r0 = st["reload0"]
@@ -363,7 +368,7 @@ def evaluate_pipeline(case, d):
         else:
             check_pair("conv0", "reload0", "save+reload of the converted model", True)
             for s in r0["d"]["shapes"]:
-                for w in partition_failures(s):
+                for w in partition_failures(s, s["name"] not in src_boneless):
                     fails.append(("reloaded converted model: partition invariant: " + w, {"shape": s["name"]}))
     if "reload1" in st and st["reload1"].get("load_rc", 1) == 0:
         check_pair("orig", "reload1", "there and back", True)
